@@ -192,10 +192,14 @@ impl Engine for C17 {
             }
         }
         let calls = nlines + 3;
-        let mode = match r.below(8) {
+        let mode = match r.below(10) {
             0 | 1 => "direct",
             2 | 3 => "loop",
             4 => "array",
+            // the first two lines are read by calls whose result is never used
+            5 => "skip",
+            // read_line wrapped in a user function that returns its result
+            6 => "wrapper",
             _ => "straight",
         };
         let mut errors = vec![];
@@ -297,8 +301,17 @@ impl Engine for C17 {
                         "make a get [] make i get 0 jasi (i small pass {calls}) start a.push(read_line(\"\")) i get i add 1 end \
                          make j get 0 jasi (j small pass {calls}) start shout(a[j]) j get j add 1 end"
                     ),
+                    "skip" if calls >= 3 => format!(
+                        "make header get read_line(\"\").trim()\nmake second get read_line(\"\")\n{}",
+                        "shout(read_line(\"\"))\n".repeat(calls - 2)
+                    ),
+                    "wrapper" if calls >= 2 => format!(
+                        "do next_line() start\n  return read_line(\"\")\nend\nmake pair get [next_line(), next_line()]\nshout(pair[0])\nshout(pair[1])\n{}",
+                        "shout(next_line())\n".repeat(calls - 2)
+                    ),
                     _ => "shout(read_line(\"\"))\n".repeat(calls),
                 };
+                let skipped = if mode == "skip" && calls >= 3 { 2 } else { 0 };
                 let out = pipeline::run_library(&src, true, None);
                 match out {
                     pipeline::Outcome::Rejected(m) => {
@@ -306,7 +319,9 @@ impl Engine for C17 {
                         return res.violation("harness", format!("script rejected: {m}"));
                     }
                     pipeline::Outcome::Ran { out, err } => {
-                        got = out;
+                        // lines consumed by the unused calls are not printed: take them as read
+                        got = expected.iter().take(skipped).cloned().collect();
+                        got.extend(out);
                         if let Some(e) = err.first() {
                             failed = Some(e.clone());
                         }
